@@ -69,6 +69,53 @@ def rule_counts(plan, cfg) -> dict[str, int]:
     return out
 
 
+def error_count_with_byes(plan, cfg) -> int | None:
+    """Documented error count of a plan whose non-bye cells are mutually
+    consistent (what the game encoding produces). None if inconsistent."""
+    rounds, hmin, hmax, amin, amax, smin, smax = cfg
+    n = len(plan[0])
+    D = len(plan)
+    for day in plan:
+        for a, v in enumerate(day):
+            if v == 0:
+                continue
+            b = abs(v) - 1
+            if abs(v) > n or b == a:
+                return None
+            if (v > 0 and day[b] != -(a + 1)) or (v < 0 and day[b] != a + 1):
+                return None
+    total = 0
+    for t in range(n):
+        col = [plan[d][t] for d in range(D)]
+        for sign, grp in groupby(col, key=lambda v: (v > 0) - (v < 0)):
+            ln = len(list(grp))
+            if sign == 0:
+                total += ln                      # one error per bye
+            elif sign > 0:
+                total += max(0, hmin - ln) + max(0, ln - hmax)
+            else:
+                total += max(0, amin - ln) + max(0, ln - amax)
+    meet: dict[tuple[int, int], list[int]] = {}
+    home: dict[tuple[int, int], int] = {}
+    for d in range(D):
+        for a in range(n):
+            v = plan[d][a]
+            if v > 0:
+                b = v - 1
+                meet.setdefault((min(a, b), max(a, b)), []).append(d)
+                home[(a, b)] = home.get((a, b), 0) + 1
+    for days in meet.values():
+        for d0, d1 in zip(days, days[1:]):
+            gap = d1 - d0 - 1
+            total += max(0, smin - gap) + max(0, gap - smax)
+    want = D // (n - 1)
+    for a in range(n):
+        for b in range(a):
+            ab, ba = home.get((a, b), 0), home.get((b, a), 0)
+            total += abs(ab + ba - want) + max(0, abs(ab - ba) - 1)
+    return total
+
+
 def infeasibility(plan, cfg) -> str | None:
     """None iff the plan is a feasible round-robin schedule (property text)."""
     rounds, hmin, hmax, amin, amax, smin, smax = cfg
